@@ -94,6 +94,14 @@ claim('C12', 'companion/guard analysis of the positional joins (the safeguard ru
       'new-axis name guards; list, tuple and dict input forms are accepted. Slice-by-slice equality with the inputs is not decided.',
       'Assumes np.array(list) stacks along a new first axis and np.concatenate semantics.', 'DESIGN.md §3 C12')
 
+claim('C13', 'who-may-write scan of the dict level + path/loop analysis of Dataset.__setitem__ (must-alias of stored axes, validate-before-mutate across loop iterations, clean-up pairing) + read-before-replace ordering in DatasetAxes.__setitem__',
+      'Decides structural clauses of C13: only __setitem__, __delitem__ and rename_keys touch the dict level; the stored array is a private shell with a deep-copied axes '
+      'container whose every axis is replaced by the dataset\'s own Axis object of that name or appended to the dataset; no loop both mutates the dataset and raises for '
+      'a mismatch; obsolete axes are cleaned up after the store / delete and decided per axis; replacing a dataset axis remembers the old name first and hands the new '
+      'Axis object to every variable having it; dims setter / set_axis / rename_axes write through the shared Axis object, rename_keys moves the stored object; the '
+      'constructor inserts aligned arrays. The equality used to compare axes is not judged.',
+      'Assumes copy.copy / copy.deepcopy and list method semantics.', 'DESIGN.md §3 C13')
+
 UNDER_CONSTRUCTION = 'checker under construction in this session (claimed in DESIGN.md, not yet registered)'
 for pid in ['C01', 'C03', 'C04', 'C05', 'C06', 'C07', 'C08', 'C09', 'C10', 'C11', 'C12', 'C13', 'C14', 'C15', 'C16',
             'C17', 'C18', 'C19']:
